@@ -13,9 +13,8 @@ Lemma tables_are_typed : tables_typed tables = true.
 Proof. vm_compute. reflexivity. Qed.
 
 Lemma tables_are_complete :
-  length (t_bin tables) = (16 * 43)%nat /\ length (t_un tables) = 12%nat /\ length (t_idx tables) = 43%nat /\
-  N.of_nat (table_entries tables) = (16 * 43 * 43 + 12 * 43 + 43 * 43)%N.
-Proof. repeat split; vm_compute; reflexivity. Qed.
+  table_entries tables = (16 * 43 * 43 + 12 * 43 + 43 * 43)%N.
+Proof. vm_compute. reflexivity. Qed.
 
 (* ------------------------------------------------------------------ enumeration *)
 
